@@ -52,6 +52,9 @@ pub fn error_of(kind: &str) -> io::Error {
         "InvalidData" => io::ErrorKind::InvalidData,
         "PermissionDenied" => io::ErrorKind::PermissionDenied,
         "TimedOut" => io::ErrorKind::TimedOut,
+        "UnexpectedEof" => io::ErrorKind::UnexpectedEof,
+        "Interrupted" => io::ErrorKind::Interrupted,
+        "WouldBlock" => io::ErrorKind::WouldBlock,
         _ => io::ErrorKind::Other,
     };
     io::Error::new(k, "injected fault")
